@@ -169,13 +169,14 @@ def c12(run):
 def c10(run):
     run.build()
     run.mc("MC_Bloom")
+    # the scan algorithm (spender index + recursive re-check) equals the least fixpoint in every block order;
+    # the same TLC run emits a deterministic sample of the explored configurations, replayed on the real code below
+    cases = run.gen("MC_TxScan", "Gen_TxScan.cfg", env={"GEN_MOD": "600" if run.tier == "thorough" else "6000"}, timeout=3600)
     if run.tier == "thorough":
-        # the scan algorithm (spender index + recursive re-check) equals the least fixpoint in every block order
-        run.mc("MC_TxScan", "MC_TxScan.cfg", timeout=3600)
         r = run.mc("MC_TxScan", "MC_TxScan_norecheck.cfg", expect_fail=True, timeout=3600)
         if r["ok"]:
             raise pipeline.Infra("negative control failed: the scan without the recursive re-check should depend on the block order")
-    trace, _ = run.exec("C10")
+    trace, _ = run.exec("C10", cases=cases)
     run.validate("Trace_TxFilter", trace)
     return finish(run, assumptions=BLOOM_ASSUME + [
         "data pushes and script classes are environment facts (bchd txscript.PushedData / GetScriptClass); for unparsable scripts the pushes before the error come from the harness' own tokenizer",
